@@ -51,6 +51,19 @@ StepInverse == \A cp \in Slots(prec) : Hits(cd, prec, cp[1], cp[2]) =>
 \* errors leave the coder untouched by construction (FAIL carries no coder); out-of-data depends on data only (C14)
 OutOfDataModelFree == \A cp1, cp2 \in Slots(prec) : Failed(Pull(cd, prec)) = Failed(Pull(cd, prec))
 
+\* Bridge to the width-independent theorem RemaindersStep (spec/proofs/ChainStep.tla, TLAPS): in every reachable state and for
+\* every slot that contains the pulled quantile, ChainDec / NeedsRefill compute exactly the quantities the theorem speaks about
+ProofBridge == \A cp \in Slots(prec) : Hits(cd, prec, cp[1], cp[2]) =>
+    LET Th == Pow2(S - W - prec)
+        B == Pow2(W)
+        q == Pull(cd, prec).q
+        hr1 == cd.hr * cp[2] + (q - cp[1])
+        flush == hr1 >= Th * B
+        n == ChainDec(cd, prec, cp[1], cp[2])
+    IN /\ cd.hr >= Th /\ cd.hr < Th * B /\ cp[2] <= B                      \* hypotheses of the theorem
+       /\ n.hr = (IF flush THEN hr1 \div B ELSE hr1)
+       /\ n.rem = (IF flush THEN Append(cd.rem, hr1 % B) ELSE cd.rem)
+       /\ NeedsRefill(n, prec, cp[2]) = (n.hr < cp[2] * Th)
 SymbolsOnly == SelectSeq(hist, LAMBDA x : x[3] # 0)
 Emit == PrintT(<<"CASE", ToJson(
     [k |-> "chain", W |-> W, S |-> S, binary |-> Binary, data |-> data, hist |-> hist, prec |-> prec,
